@@ -86,6 +86,10 @@ pub enum Item {
     Custom { nonce: u32, rule: u32, loc: Loc },
 }
 
+/// Flag in `LogEntry::rule`: the entry records what the handle reports (match_loc, match_, peek)
+/// right AFTER `reset_match()` inside the action of the rule whose id is in the low bits.
+pub const POST_RESET: u32 = 0x4000_0000;
+
 #[derive(Debug, Clone, PartialEq, Eq, Hash)]
 pub struct LogEntry {
     /// Number of items the lexer had produced when the action ran.
